@@ -40,7 +40,7 @@ chk = Check('C17', 'exploration',
             'full product of the menus: 9 hand-built crystals (fcc, bcc, hcp, B2, zincblende; axis-aligned, re-oriented '
             'and generically rotated cells) x deformation gradients (I +- 0.01 E_ij, rotations 1/5 deg about x,y,z, 6 '
             'combinations, 1 seed slice) x 2 cutoffs (1st / 1st+2nd shell) x variants (4 renumberings x 4 translations; '
-            'quick: identity + one variant per base configuration in round-robin, thorough: all 16); contested: first-shell reference vectors with a cutoff of 2.08 r1 reaching the collinear shell x deformation gradients x theta_max{27,10,50} on the 6 one-environment crystals; slips: stacking '
+            'quick: identity + one variant per base configuration in round-robin, thorough: all 16); scaled: crystal, cell, reference vectors and cutoff times 1e-10 / 1e3 (neighbour pairs handed over); contested: first-shell reference vectors with a cutoff of 2.08 r1 reaching the collinear shell x deformation gradients x theta_max{27,10,50} on the 6 one-environment crystals; slips: stacking '
             'axis x EVERY interior plane between layers x 6 slip vectors (+1 seed slice) x 2 cutoffs x periodic/free '
             'stacking direction x one-sided/split (quick: the last two in a round-robin Latin pattern, thorough: full '
             'product) for all configurations that satisfy the uniqueness guarantee cutoff+|s| < w_min/2-0.25; a case is one '
@@ -907,6 +907,72 @@ def contested(case):
     return fails
 
 
+# --------------------------------------------------------------------------
+# the same problem at another length scale
+
+LSCALES = [1e-10, 1e3]       # lengths held in metres (SI working units); lengths held in a tiny unit
+
+
+@chk.clause('scaled')
+def scaled(case):
+    """Crystal, cell, reference vectors and cutoff multiplied by k: G, strain, rotation, invariants and angular velocity
+    are dimensionless and must not change, displacements scale with k, the Nye tensor (1/length) with 1/k.  The
+    neighbour pairs are handed over (neighbors=), so that the list builder (property C03) is not involved."""
+    ci = case['crystal']
+    k = LSCALES[case['k']]
+    info = crystal(ci, 'dsize', 0)
+    c = info['c']
+    pbc = (True, True, True)
+    D, L = pairs(ci, 'dsize', 0, pbc)
+    fname, F = DEFS[case['F']]
+    cutoff = c['cuts'][case['cut']]
+    N = len(info['pos'])
+    V, o = info['vects'], info['origin']
+    sv = np.linalg.svd(F, compute_uv=False)
+    assert shells_ok(L, cutoff, sv.min(), sv.max()), 'cutoff does not select complete shells'
+    Nb = L < cutoff
+    idx, pos0, o0, t, kind = variant_setup(info, pbc, 0, case['trans'])
+    xc = o0 + V.sum(axis=0) / 2
+    cvec = xc - F @ xc
+    A = F - I3
+    u = pos0 @ A.T + cvec
+    V1, o1, pos1 = V @ F.T, F @ o0 + cvec, pos0 + u
+    w = min(info['w'].min(), min_widths(V1).min())
+    assert np.linalg.norm(u, axis=1).max() + MARGIN < w / 2 and cutoff * max(sv.max(), 1) + MARGIN < w / 2
+    atype = info['atype'][idx]
+    s0 = make_system(atype, k * pos0, k * V, k * o0, pbc)
+    s1 = make_system(atype, k * pos1, k * V1, k * o1, pbc)
+    Dv = D[np.ix_(idx, idx)]
+    Nbv = Nb[np.ix_(idx, idx)]
+    nl = own_nlist(Nbv)
+    pown = [k * Dv[i][Nbv[i]] for i in range(N)]
+    fails = []
+    cmp(fails, 'scaled-displacement', am.displacement(s0, s1), k * u, TOL * k)
+    G, e, rot, inv, av = oracle_from_F(F)
+    emax = max(np.abs(e).max(), 1e-3)
+    with warnings.catch_warnings():
+        warnings.simplefilter('error')
+        if case['mode'] == 0:
+            st = am.defect.Strain(s1, neighbors=nl, basesystem=s0, baseneighbors=nl)
+        else:
+            st = am.defect.Strain(s1, neighbors=nl, p_vectors=[np.array(p) for p in pown])
+        r = am.defect.nye_tensor(s1, np.array(pown), neighbors=nl)
+    ones = np.ones(N)
+    cmp(fails, 'scaled-strain-G', st.G, np.broadcast_to(G, (N, 3, 3)), TOL, 'G = F^-T')
+    cmp(fails, 'scaled-strain-strain', st.strain, np.broadcast_to(e, (N, 3, 3)), TOL)
+    cmp(fails, 'scaled-strain-rotation', st.rotation, np.broadcast_to(rot, (N, 3, 3)), TOL)
+    cmp(fails, 'scaled-strain-invariant1', st.invariant1, inv[0] * ones, TOL)
+    cmp(fails, 'scaled-strain-angularvelocity', st.angularvelocity, av * ones, TOL)
+    cmp(fails, 'scaled-strain-nye', st.nye, np.zeros((N, 3, 3)), TOL_NYE / k, 'Nye of a homogeneous deformation (1/length)')
+    cmp(fails, 'scaled-nye_tensor-strain', r['strain'], np.broadcast_to(e, (N, 3, 3)), TOL)
+    cmp(fails, 'scaled-nye_tensor-invariant1', r['strain_invariant_1'], inv[0] * ones, TOL)
+    cmp(fails, 'scaled-nye_tensor-angularvelocity', r['angular_velocity'], av * ones, TOL)
+    cmp(fails, 'scaled-nye_tensor-nye', r['Nye_tensor'], np.zeros((N, 3, 3)), TOL_NYE / k)
+    chk.note('atoms-checked', N)
+    chk.note('scaled-cases', 1)
+    return fails
+
+
 def gen():
     nsize = 2 if THOROUGH else 1
     # ---- homogeneous deformations
@@ -935,6 +1001,14 @@ def gen():
                 else:
                     yield 'contested', dict(crystal=ci, F=fi, theta=th, variant=0 if b % 2 else 1 + b % 15, mode=b % 2)
                 b += 1
+    # ---- the same problems at other length scales
+    b = 0
+    for ci in range(len(CRYSTALS)):
+        for fi in range(len(DEFS)):
+            if THOROUGH or fi % 3 == ci % 3 or DEFS[fi][0] in ('generic', 'R123-sym'):
+                for ki in range(len(LSCALES)):
+                    yield 'scaled', dict(crystal=ci, F=fi, k=ki, cut=b % 2, mode=(b // 2) % 2, trans=b % 4)
+                    b += 1
     # ---- rigid slips
     b = 0
     for ci, c in enumerate(CRYSTALS):
